@@ -11,6 +11,8 @@ mod pool;
 mod poolgen;
 mod votor;
 mod c09;
+mod c12;
+mod c13;
 
 use std::fs;
 use std::io::Write;
@@ -153,6 +155,8 @@ fn real_main() {
                 *LAST_PANIC.lock().unwrap() = format!("{}", info);
             }));
             let cs = match id {
+                "C12" => c12::gen_c12(seed, tier),
+                "C13" => c13::gen_c13(seed, tier),
                 "C15" => c15::generate(seed, tier),
                 "C03" => poolgen::gen_c03(seed, tier),
                 "C04" => poolgen::gen_c04(seed, tier),
@@ -168,6 +172,12 @@ fn real_main() {
                 }
             };
             let mut cs = cs;
+            if let Some(pos) = args.iter().position(|a| a == "--runner") {
+                cs.runner = args[pos + 1].clone();
+            }
+            if let Some(pos) = args.iter().position(|a| a == "--header") {
+                cs.header = format!("{}\n", args[pos + 1]);
+            }
             if let Some(pos) = args.iter().position(|a| a == "--only") {
                 let only: usize = args[pos + 1].parse().expect("case id");
                 cs.cases = vec![cs.cases[only].clone()];
